@@ -234,6 +234,26 @@ theorem C10_gen_host_paths :
        ["case <-c.recvCh", "send kill", "return result"]] := by
   refine ⟨?_, ?_, ?_, ?_⟩ <;> decide +kernel
 
+/-- **the container endpoint of the model is `handleExecve`** (regenerated from container/container_exec_linux.go):
+its paths, projected onto what touches the socket, the program and the reaper, are exactly
+* a refusal before anything is started: one error reply (model: execRecv → serve with errReply);
+* a failed start: one error reply, and — only after the host was acknowledged — the host's kill is consumed
+  (model: atSync → consumeKill → serve; the pinned tree lacked the receive, see `C10_failAfterAck_witness`);
+* a refused synchronisation after exec: kill everything FIRST, then hand the pid over, take the result, send it,
+  request the reaping and wait for its end (kill before wait: the program may never end by itself);
+* the started program: `handleExecveStarted` (with or without the after-exec synchronisation before it);
+and the synchronisation closure sends the sync message and receives exactly one command (ok or kill). -/
+theorem C10_gen_container_paths :
+    Gen.C10.containerExecvePaths =
+      [["send error reply"],
+       ["start", "send error reply"],
+       ["start", "send error reply", "recv"],
+       ["start", "syncPid", "kill all", "c.waitPid<-", "<-c.waitPidResult", "send result", "c.waitAll<-", "<-c.waitAllDone"],
+       ["start", "syncPid", "started"],
+       ["start", "started"]] ∧
+    Gen.C10.syncPidPaths = [["send sync"], ["send sync", "recv"]] := by
+  constructor <;> decide +kernel
+
 /-- **one command, one answer, on every path of every simple call** (regenerated from container/host_cmd_linux.go):
 Ping, conf, Open, Symlink, Delete and Reset each send exactly one command and then receive exactly one reply —
 or return at once when the send itself failed; no path sends twice, receives twice, or receives without having
